@@ -153,6 +153,7 @@ static bool probeLineBlocks(Outcome& o, const PolarGrid& g, const DMat& M, bool 
 static Outcome runCase(const KV& c)
 {
     Outcome o;
+    setVectorScaleExp(c, o);
     ProblemSpec p     = ProblemSpec::get(c);
     const int threads = (int)c.getI("threads");
     const bool probe  = c.getI("probe", 0) != 0;
@@ -391,6 +392,7 @@ static KV genCase()
     auto kind = [&] { return rweighted({4, 3, 1, 1, 1, 0, 0, 0, 0, 0, 1, 1, 1, 2}); };
     c.putI("x_kind", kind());
     c.putU("x_seed", rseed());
+    c.putI("vec_scale_exp", rpick({0, 0, 0, 0, 0, 0, -300, -100, 100, 300}));
     c.putI("y_kind", kind());
     c.putU("y_seed", rseed());
     c.putI("probe", (p.nr() * p.ntheta() <= 400 && (lines || rint(0, 3) == 0)) ? 1 : 0);
